@@ -69,6 +69,14 @@ func (p *Prog) AliasConverted(names []string) {
 			p.Converted[cand[0]] = n
 			convertedNames[cand[0]] = n
 			taken[cand[0]] = true
+			var rec func(parent *ssa.Function)
+			rec = func(parent *ssa.Function) {
+				for _, a := range parent.AnonFuncs {
+					p.Funcs[FuncName(a)] = a
+					rec(a)
+				}
+			}
+			rec(cand[0])
 		}
 	}
 }
@@ -106,6 +114,9 @@ func (p *Prog) Field(typ, name string) *types.Var {
 		if st.Field(i).Name() == name {
 			return st.Field(i)
 		}
+	}
+	if f := p.FieldAlias[typ+"."+name]; f != nil {
+		return f
 	}
 	anchorFail("field %s.%s", typ, name)
 	return nil
